@@ -99,6 +99,13 @@ func Gen(prop, tier string, seed uint64) *kernel.Plan {
 	for i := 0; i < nAct; i++ {
 		cfg.Actors = append(cfg.Actors, ActorCfg{Coll: g.Intn(cfg.Colls), Realtime: realtime && (i > 0 || g.Chance(2, 3))})
 	}
+	rtActor := -1
+	if prop == "C13" && nAct > 1 && g.Chance(1, 3) {
+		// one realtime client among the manual ones: its entries go through the notification
+		// subscription, which can fail (mqttfail)
+		rtActor = g.Range(1, nAct-1)
+		cfg.Actors[rtActor].Realtime = true
+	}
 	c := &genCtx{g: g, prop: prop, nAct: nAct, kindOf: map[string]string{}}
 	nk := g.Range(1, 2)
 	for i := 0; i < nk; i++ {
@@ -144,6 +151,9 @@ func Gen(prop, tier string, seed uint64) *kernel.Plan {
 			m := "subscribe"
 			if g.Chance(1, 2) {
 				m = "soc"
+			}
+			if a == rtActor && g.Chance(1, 2) {
+				evs = append(evs, Ev{T: "mqttfail", A: a, N: g.Intn(2)})
 			}
 			evs = append(evs, Ev{T: "open", A: a, K: k, Kind: c.kindOf[k], Mode: m})
 			if g.Chance(2, 3) {
@@ -214,7 +224,7 @@ func Gen(prop, tier string, seed uint64) *kernel.Plan {
 		case 6:
 			e := Ev{T: "rogue", A: a, S: g.U64() % 100000}
 			if prop == "C17" {
-				e.Mode = []string{"other-collection", "foreign-duid", "client-other-collection", "unknown-collection"}[g.Intn(4)]
+				e.Mode = []string{"other-collection", "foreign-duid", "client-other-collection", "unknown-collection", "used-duid"}[g.Intn(5)]
 			}
 			evs = append(evs, e)
 		case 7:
